@@ -110,7 +110,7 @@ def uint_requests(rng, n):
         ty = rng.choice(names)
         b, L, s = TYPES[ty]
         lo, hi, incl = random_range(rng, b, s)
-        via = rng.choice(["try", "try", "sampler", "utrait", "new", "from", "range"])
+        via = rng.choice(["try", "try", "sampler", "utrait", "new", "from", "range", "serde", "serdesampler"])
         empty = lo > hi if incl else lo >= hi
         r = 0 if empty else ((hi - lo + (1 if incl else 0)) % (1 << b))
         nsamp = rng.range(1, 3)
